@@ -13,7 +13,7 @@ RULE = ("one evaluation = one (tree, direction, choice vector): direction 1 = li
         "or direction 1 with a secondary token / packed string / JID; distinct by (tree hash, direction, vector)")
 ASSUMPTIONS = ["the reference codec is our reading of the format; it must reproduce the byte strings pinned in the repository's coder tests and round-trip with itself, else the run is inconclusive",
                "the token tables are a frozen copy of the pinned tree (independent in time, not in origin)"]
-REQUIRED = ["layer_histories", "layer_history_ok", "layer_history_refusals", "dir1", "dir2", "dir2_noncanonical", "dict_entries", "selftest_vectors", "anchor_ok", "full_product_trees",
+REQUIRED = ["decoder_histories", "decoder_history_ok", "decoder_history_refusals", "layer_histories", "layer_history_ok", "layer_history_refusals", "dir1", "dir2", "dir2_noncanonical", "dict_entries", "selftest_vectors", "anchor_ok", "full_product_trees",
             "choice:content:s:tok", "choice:frame:deflate", "choice:list:l16", "choice:value:raw31"]
 TIMEOUT = {"quick": 900, "thorough": 7200}
 
@@ -74,6 +74,60 @@ def dir1(acc, cid, tree, enc):
             acc.count("dir1_bytes_identical_to_canonical")
     except Exception:
         pass
+
+
+def decoder_histories(acc, seed, n):
+    """One decoder (as a coder layer keeps it for its whole life) through histories of frames in which some are damaged in transit
+    (a compressed frame cut short, a frame ending inside a string, an unknown control byte): those are refused, and every valid
+    frame - plain or compressed - before and after them decodes to exactly its tree."""
+    import zlib
+    from yowsup.layers.coder.decoder import ReadDecoder
+    from yowsup.layers.coder.tokendictionary import TokenDictionary
+    for k in range(n):
+        r = gen.rng(seed, ID, "dechist/%d" % k)
+        dec = ReadDecoder(TokenDictionary())
+        acc.count("decoder_histories")
+        hist = []
+        ok = True
+        for i in range(r.randint(4, 12)):
+            tree = trees.rand_tree(r, maxdata=300)
+            raw = bytes(refcodec.encode_canonical(tree))
+            kind = r.choice(["plain", "deflate", "deflate", "cut-deflate", "cut-plain", "bad-deflate"])
+            hist.append(kind)
+            w = {"op": "decoder-history", "case": k, "history": list(hist)}
+            if kind == "plain":
+                frame = raw
+            elif kind == "deflate":
+                frame = b"\x02" + zlib.compress(raw[1:])
+            elif kind == "cut-deflate":
+                comp = zlib.compress(raw[1:])
+                frame = b"\x02" + comp[:-r.randint(1, min(8, len(comp) - 1))]
+            elif kind == "bad-deflate":
+                comp = bytearray(zlib.compress(raw[1:]))
+                comp[r.randrange(2, len(comp))] ^= 0x55
+                frame = b"\x02" + bytes(comp)
+            else:
+                frame = raw[:max(2, len(raw) - r.randint(1, 3))]
+            try:
+                got = dec.getProtocolTreeNode(list(frame))
+            except Exception as e:  # noqa
+                if kind in ("plain", "deflate"):
+                    acc.violation("decoder-history:valid-frame-refused:%s" % kind, "a valid %s frame was refused (%s: %s) after the history %s on the same decoder"
+                                  % (kind, type(e).__name__, str(e)[:80], hist[:-1]), w)
+                    ok = False
+                    break
+                acc.count("decoder_history_refusals")
+                continue
+            if kind in ("plain", "deflate"):
+                d = treeeq.diff(tree, got) if got is not None else "decoded to None"
+                if d:
+                    acc.violation("decoder-history:decodes-differently:%s" % kind, "a valid %s frame decodes differently after the history %s: %s" % (kind, hist[:-1], d), w)
+                    ok = False
+                    break
+                acc.count("decoder_history_frames_ok")
+            # (a damaged frame that happens to decode to something is not judged here)
+        if ok:
+            acc.count("decoder_history_ok")
 
 
 def layer_histories(acc, seed, n):
@@ -365,6 +419,7 @@ def run(spec, acc):
     if spec["kind"] == "dict+fixed":
         check_dictionary(acc, td)
         layer_histories(acc, seed, 300 if spec.get("full", 600) <= 600 else 6000)
+        decoder_histories(acc, seed, 200 if spec.get("full", 600) <= 600 else 4000)
         r = gen.rng(seed, ID, "fixed")
         for cid, tree in fixed_dir2_cases():
             dir1(acc, cid, tree, enc)
